@@ -31,6 +31,13 @@ func (c *BlockAddress) String() string {
 
 // Type returns the type of the constant.
 func (c *BlockAddress) Type() types.Type {
+	// The address of a basic block is an i8 pointer in the address space of its
+	// function.
+	if typ, ok := c.Func.Type().(*types.PointerType); ok && typ.AddrSpace != 0 {
+		ptr := types.NewPointer(types.I8)
+		ptr.AddrSpace = typ.AddrSpace
+		return ptr
+	}
 	return types.I8Ptr
 }
 
